@@ -27,6 +27,23 @@ QUICK_CONFIGS = ["default"]
 THOROUGH_CONFIGS = list(CONFIGS)
 
 
+def profile_dependent_source(root=None):
+    """True when some source file of the crate names `debug_assertions` (in a `#[cfg(..)]`, `cfg!(..)` or `cfg_attr`): the code the
+    compiler sees then differs between the dev and the release profile beyond std's own `debug_assert!`s, so the quick tier adds
+    the `nodebug` configuration (the thorough tier always has it).  Comments count too - that only costs a second extraction."""
+    src = os.path.join(root or REPO, "src")
+    for dp, dn, fn in os.walk(src):
+        for x in fn:
+            if x.endswith(".rs"):
+                try:
+                    with open(os.path.join(dp, x), errors="replace") as fh:
+                        if re.search(r"\bdebug_assertions\b", fh.read()):
+                            return True
+                except OSError:
+                    pass
+    return False
+
+
 class ExtractionError(Exception):
     pass
 
@@ -229,6 +246,7 @@ class Body:
         self.impl_self = d.get("impl_self")
         self.impl_trait = d.get("impl_trait")
         self.trait_provided = d.get("trait_provided")
+        self.shadow_of = None
         self.file = d["span"]["file"]
         self.line = d["span"]["lo"]
         self._succ = None
@@ -394,9 +412,57 @@ class Facts:
         self.impls = self.raw.get("impls", [])
         self.items = self.raw.get("items", [])
         self.reachable = set(self.raw.get("reachable", []))
+        self.shadows = []
+        self._alias_shadows()
         self.by_ident = {}
         for b in self.bodies:
             self.by_ident.setdefault(b.ident, []).append(b)
+
+    # An inherent method hides a trait method of the same name at every method-call site (`x.len()`, `a.copy_from_slice(..)`),
+    # inside the crate and in caller code alike. Such a method IS the trait method as far as users are concerned, so it is
+    # analysed under the trait method's identity (`T as Trait::m`) and every rule that applies to an override applies to it.
+    STD_TRAIT_METHODS = {
+        "core::iter::Iterator": ("next", "size_hint", "count", "last", "nth", "fold", "try_fold", "for_each", "advance_by", "min", "max",
+                                 "sum", "position", "find", "any", "all", "collect", "rev", "skip", "step_by"),
+        "core::iter::DoubleEndedIterator": ("next_back", "nth_back", "rfold", "try_rfold", "advance_back_by", "rfind"),
+        "core::iter::ExactSizeIterator": ("len", "is_empty"),
+        "core::clone::Clone": ("clone", "clone_from"), "core::cmp::PartialEq": ("eq", "ne"), "core::hash::Hash": ("hash",),
+        "core::ops::Index": ("index",), "core::ops::IndexMut": ("index_mut",), "core::iter::IntoIterator": ("into_iter",),
+        "core::default::Default": ("default",), "core::convert::AsRef": ("as_ref",), "core::convert::AsMut": ("as_mut",)}
+    MUT_TRAITS = ("TooDeeOpsMut", "SortOps", "TranslateOps", "CopyOps")
+
+    def _alias_shadows(self):
+        crate_tm = {}
+        for b in self.bodies:
+            if b.kind != "Closure" and (b.impl_trait or b.trait_provided):
+                th = b.trait_head
+                if th in ("TooDeeOps",) + self.MUT_TRAITS:
+                    crate_tm.setdefault(th, set()).add(b.name)
+        implemented = {}
+        for im in self.impls:
+            tp = im.get("trait_path")
+            if tp:
+                implemented.setdefault(head(im.get("self") or ""), set()).add(re.sub(r"<.*$", "", tp))
+        for b in self.bodies:
+            if b.kind == "Closure" or not b.impl_self or b.impl_trait:
+                continue
+            T = b.self_head
+            hit = None
+            if T in ("TooDee", "TooDeeView", "TooDeeViewMut"):
+                for tr in ("TooDeeOps",) + (self.MUT_TRAITS if T != "TooDeeView" else ()):
+                    if b.name in crate_tm.get(tr, ()):
+                        hit = tr
+                        break
+            if hit is None:
+                for tp in sorted(implemented.get(T, ())):
+                    if b.name in self.STD_TRAIT_METHODS.get(tp, ()):
+                        hit = tp
+                        break
+            if hit is None:
+                continue
+            b.shadow_of = hit
+            b.impl_trait = "<%s as %s>" % (b.impl_self, hit)
+            self.shadows.append(b)
 
     def find(self, self_head=None, trait_head=None, name=None, kind=None):
         out = []
